@@ -167,29 +167,16 @@ Proof.
     destruct e; cbn [x_step]; unfold x_window, f_complete; cbn [x_f x_sealed x_oa x_ob f_tid f_ea f_eb f_xa f_xb];
       rewrite ?C; cbn [andb orb].
     all: try (repeat split; try tauto; try congruence; fail).
+    all: try (cbn; rewrite ?C; cbn; repeat split; try tauto; try congruence; fail).
     + (* Sn: the flags stay incomplete *)
-      assert (F : forall b, b = (let y := (if full then f_on_enter s {| f_tid := t; f_ea := ea; f_eb := eb; f_xa := xa; f_xb := xb |}
-                              else {| f_tid := t; f_ea := ea; f_eb := eb; f_xa := xa; f_xb := xb |}) in
-                              f_ea y && f_eb y && f_xa y && f_xb y) -> b = false).
-      { intros b ->. destruct full; [|exact C]. destruct s; cbn; clear -C Ia Ib; destruct ea, eb, xa, xb; cbn in *; auto;
-          try (specialize (Ia eq_refl)); try (specialize (Ib eq_refl)); congruence. }
-      cbn zeta in F. rewrite (F _ eq_refl).
-      repeat split; try discriminate; auto.
-      * destruct full; [destruct s|]; cbn; auto.
-      * destruct full; [destruct s|]; cbn; auto.
-    + (* Sx *)
-      destruct ok; [|cbn [f_ea f_eb f_xa f_xb]; rewrite C; repeat split; try tauto; congruence].
-      destruct (f_ea (f_on_exit s {| f_tid := t; f_ea := ea; f_eb := eb; f_xa := xa; f_xb := xb |}) &&
-                f_eb (f_on_exit s {| f_tid := t; f_ea := ea; f_eb := eb; f_xa := xa; f_xb := xb |}) &&
-                f_xa (f_on_exit s {| f_tid := t; f_ea := ea; f_eb := eb; f_xa := xa; f_xb := xb |}) &&
-                f_xb (f_on_exit s {| f_tid := t; f_ea := ea; f_eb := eb; f_xa := xa; f_xb := xb |})) eqn:C'.
-      * repeat split; try discriminate.
-        -- destruct s; cbn in *; clear -Ia Ib; bsolve.
-        -- destruct s; cbn in *; clear -Ia Ib; bsolve.
-        -- intros _. eapply Hrun; try reflexivity; [cbn [x_step]; reflexivity|exact C|exact C'].
-      * repeat split; try discriminate; auto.
-        -- destruct s; cbn in *; clear -Ia Ib; bsolve.
-        -- destruct s; cbn in *; clear -Ia Ib; bsolve.
+      destruct full, s, ea, eb, xa, xb; cbn in C |- *; try discriminate C;
+        try (specialize (Ia eq_refl); discriminate Ia); try (specialize (Ib eq_refl); discriminate Ib);
+        repeat split; intros; try discriminate; auto.
+    + (* Sx: a scan that returns without error may complete them *)
+      destruct ok, s, ea, eb, xa, xb; cbn in C |- *; try discriminate C;
+        try (specialize (Ia eq_refl); discriminate Ia); try (specialize (Ib eq_refl); discriminate Ib);
+        repeat split; intros; try discriminate; auto;
+        try (eapply Hrun; reflexivity).
 Qed.
 
 Lemma winv_run : forall t p, winv t p (x_run p (x_fresh t)).
@@ -233,7 +220,7 @@ Proof.
       * (* Ca *)
         assert (t0 <> t) by (intro; subst; apply (Hnc c); left; reflexivity).
         destruct c as [| | | | |[]|]; inv E; cbn [x_step]; try exact Hf.
-        cbn. unfold x_tid at 1. cbn. destruct (Nat.eqb t0 t) eqn:E0; [apply Nat.eqb_eq in E0; congruence|exact Hf].
+        cbn [x_find]. unfold x_tid, x_fresh. cbn [x_f f_tid]. destruct (Nat.eqb t0 t) eqn:E0; [apply Nat.eqb_eq in E0; congruence|exact Hf].
       * (* Rt *)
         assert (t0 <> t) by (intro; subst; apply (Hnr c ok); left; reflexivity).
         destruct c as [| | | | |[]|]; try (inv E; cbn [x_step]; exact Hf).
@@ -261,7 +248,7 @@ Proof.
   cbn [mon_run xmon_step] in E. rewrite mon_run_app in E.
   destruct (mon_run xmon_step (x_fresh t :: m1) mid) as [m2|] eqn:E2; [|discriminate].
   assert (Hf0 : x_find t (x_fresh t :: m1) = Some (x_fresh t)).
-  { cbn. unfold x_tid at 1. cbn. rewrite Nat.eqb_refl. reflexivity. }
+  { cbn [x_find]. unfold x_tid, x_fresh. cbn [x_f f_tid]. rewrite Nat.eqb_refl. reflexivity. }
   pose proof (xmon_track _ _ _ _ _ E2 Hnr Hnc Hf0) as Hf'.
   cbn [mon_run xmon_step] in E. rewrite Hf' in E.
   destruct (x_done (x_run mid (x_fresh t))) eqn:Ed; [|discriminate].
@@ -292,9 +279,8 @@ Proof.
               (f_xb (x_f (x_step e x)) = true -> f_xb (x_f x) = true \/ exists r c, e = Sx Beta true r c)).
   { destruct x as [[t ea eb xa xb] sl oa ob]. destruct e; cbn; try tauto.
     - destruct full; [destruct s|]; cbn; repeat split; intros; eauto.
-    - destruct ok; [destruct s|]; cbn; repeat split; intros; eauto.
-      + destruct xa; eauto.
-      + destruct xb; eauto.
+    - destruct ok; [destruct s|]; cbn; repeat split; intros; eauto;
+        destruct xa, xb; cbn in *; eauto.
     - destruct (x_window _); [destruct s|]; cbn; tauto.
     - destruct (x_window _); [destruct ok; [destruct s|]|]; cbn; try tauto.
       repeat split; intros; discriminate. }
